@@ -168,6 +168,7 @@ _C08 = [
 
 ID = "C08"
 PROP = {
+    "max_jobs": 8,  # parallel CBMC jobs (memory profile of these harnesses)
     "claim": "round trip in both directions, decided per type on the real serialisers/decoders. (1) for every well-formed "
              "value inside the bound: to_bytes / write (into a capturing std::io::Write) / write_to_slice produce identical "
              "bytes (Ipv4Header::write: identical except the documented computed checksum in bytes 10..12) of exactly "
